@@ -5,6 +5,7 @@ package sim
 // to Do, a scripted transport. Serves C07, C08, C12 and C19.
 
 import (
+	"bytes"
 	"context"
 	"fmt"
 	"io"
@@ -77,6 +78,7 @@ type C1 struct {
 	Reconnect       int    // (follow-up call, network clients) before this call: 1 = Connect again without Close, 2 = Close then Connect
 	ConfOneFunc     int    // network clients built by the protocol constructors: 1 = only ParseResponseFunc given in the config (the protocol's own), 2 = only AsProtocolErrorFunc
 	ValueHooks      bool   // the hooks are a value type installed by value (zero value)
+	Marathon        int    // after the (first) call the same request is made this many more times on the same client, each answered by the same reply script
 	DeadlinePort    bool   // serial port without Flush but with SetReadDeadline
 	NilHooksOption  bool   // serial client built with WithSerialHooks(nil) when no hooks are wanted
 	WrappedTimeouts bool   // network transports report read timeouts as a *net.OpError wrapping the sentinel, as real sockets do
@@ -142,6 +144,8 @@ type C1Outcome struct {
 	Hang              bool
 	OverStep          bool
 	Flushes           int
+	MarathonBad       string // first repetition of a marathon that did not bring the reply (or did not return)
+	MarathonDone      int
 	StaleIO           string // first use of a connection that a later Connect had replaced
 	PendingRead       bool   // Do returned while a transport read it had started was still in progress
 	WDeadlineRejected int
@@ -287,6 +291,9 @@ func (g *connGen) Close() error {
 func RunC1(rc *RunCtx, sc *C1) *C1Outcome {
 	s := NewSim(rc.Sched)
 	s.Tracing = rc.Tracing
+	if sc.Marathon > 0 {
+		s.MaxSteps = 2000000
+	}
 	out := &C1Outcome{}
 	defer s.Activate()()
 
@@ -520,6 +527,20 @@ func RunC1(rc *RunCtx, sc *C1) *C1Outcome {
 		out.Returned = true
 		out.PendingRead = reading > 0
 		s.Logf("do-returned err=%v", out.Err)
+		// a long history: the same poll repeated many times (counters, caches and whatever else a client may accumulate)
+		for k := 0; k < sc.Marathon && out.Err == nil; k++ {
+			cl.lock()
+			cl.in.segs, cl.in.eof = nil, false
+			cl.unlock()
+			resp, err := doer.Do(context.Background(), sc.LibReq)
+			if err != nil || isNilResponse(resp) || !bytes.Equal(resp.Bytes(), out.Resp.Bytes()) {
+				if out.MarathonBad == "" {
+					out.MarathonBad = fmt.Sprintf("repetition %d of the same request on the same client: err=%v, response equal to the first one: %v", k+1, err, err == nil && !isNilResponse(resp) && bytes.Equal(resp.Bytes(), out.Resp.Bytes()))
+				}
+				break
+			}
+			out.MarathonDone++
+		}
 		// follow-up calls on the same client and connection (each with its own reply script)
 		for next := sc.Then; next != nil; next = next.Then {
 			cl.lock()
